@@ -100,10 +100,11 @@ def run(ctx):
         ctx.count('hdkey-encrypt:' + wt_)
         enc_cases.append(('bip38_enc bitcoin %d 1 %s' % (d, derived.hex()), enc_h or 'none', True))
     # ... and an HD key object of any witness type opens a BIP38 string like a plain key object does
-    for wt_ in (None, 'legacy', 'segwit', 'p2sh-segwit'):
+    for wt_ in (None, 'legacy', 'legacy', 'segwit', 'p2sh-segwit'):
         d = rng.choice(secrets)
         pw = rng.choice(passes[:4])
-        comp_ = rng.random() < 0.7
+        hd_imports = locals().get('hd_imports', 0) + 1
+        comp_ = False if hd_imports in (1, 2) else (True if hd_imports == 3 else rng.random() < 0.7)   # (the flag of the string in both values, in every run)
         enc_ = attempt(lambda: Key(d, compressed=comp_).encrypt(pw))
         if not enc_:
             continue
